@@ -6,6 +6,7 @@ import MlModel.Properties.C04
 import MlModel.Lemmas.DequeueCache
 import MlModel.Lemmas.PipeAggShard
 import MlModel.Lemmas.PipeAggInst
+import MlModel.Properties.C02
 /-!
 # C03 — results do not depend on the execution strategy
 
@@ -38,7 +39,8 @@ Round 7 (size-dependent behaviour; sharded x sliced):
                                                          (`Model/DequeueCache.lean`) delivers every `get_batch()`
                                                          refill exactly once, for every refill size / cap;
                                                          a bounded cache does so iff no refill exceeds it;
-`C03_shards_sliced_keys`, `C03_shards_sliced_state`, `C03_shards_sliced`, `C03_shards_sliced_whole_runs`
+`C03_shards_sliced_keys`, `C03_shards_sliced_state`, `C03_shards_sliced`, `C03_shards_sliced_result`,
+`C03_shards_sliced_groupby`, `C03_shards_sliced_whole_runs`, `C03_shards_strict_count`
                                                        — `merge_states` over shard states whose slice-key
                                                          sets differ (`Model/PipeAggShard.lean`) = the whole run.
 Not modelled (sampled by the check with real OS threads): the `ThreadPoolExecutor`/GIL scheduling, and
@@ -484,6 +486,68 @@ theorem C03_shards_sliced {P : Pipeline X S Rv} (hWF : P.WF) {parts : List (List
       rw [hm, hw] at h
       simp only [Option.bind_some]
       exact Agg.outputAt_congr (hL.result_congr h) i
+
+/-- **The sharded execution as a whole** (no hypothesis on the merged side): if the run over the whole
+stream reports `res` and the shard runs succeed, then `get_result(merge_states(shard states))` — with or
+without the right `strict_states_cnt` — exists and agrees with `res` under every output key of every
+aggregate and every slice key (all aggregates lawful). -/
+theorem C03_shards_sliced_result {P : Pipeline X S Rv} (hWF : P.WF) {parts : List (List Batch)} (hne : parts ≠ [])
+    {sts : List (State S)} (hruns : mapE (run P) parts = .ok sts)
+    {res : Result Rv} (hrun : aggResult P parts.flatten = .ok res)
+    {Eqv : S → S → Prop} (hL : ∀ a ∈ P.aggs, Lawful a.m Eqv) :
+    ∃ res', shardedResult P parts = .ok res' ∧ shardedResult P parts parts.length = .ok res' ∧
+      ∀ a ∈ P.aggs, ∀ (k : SliceKey) (i : Nat) (hi : i < a.out.length),
+        AList.get? res' ⟨a.out[i], k⟩ = AList.get? res ⟨a.out[i], k⟩ := by
+  obtain ⟨st, hst, hres⟩ := aggResult_ok hrun
+  obtain ⟨res', hres'⟩ := getResult_mergeStates_ok hWF hne hruns hst hL hres
+  have hv : P.validate = .ok () := by
+    unfold aggResult at hrun
+    cases hv : P.validate with
+    | error e => simp [hv] at hrun
+    | ok u => rfl
+  have hlen : sts.length = parts.length := mapE_ok_length hruns
+  refine ⟨res', ?_, ?_, ?_⟩
+  · simp [shardedResult, hv, hruns, mergeStatesStrict, hres']
+  · simp [shardedResult, hv, hruns, mergeStatesStrict, hlen, hres']
+  · intro a ha k i hi
+    exact C03_shards_sliced hWF hne hruns hst hres hres' ha (hL a ha) k hi
+
+/-- **`strict_states_cnt`**: the merge raises `ValueError` exactly when a count was requested and a
+different number of states arrived — never a partial aggregate. -/
+theorem C03_shards_strict_count (P : Pipeline X S Rv) (sts : List (State S)) (n : Nat) :
+    (mergeStatesStrict P sts n = .error .value ↔ (n ≠ 0 ∧ sts.length ≠ n)) ∧
+    (¬ (n ≠ 0 ∧ sts.length ≠ n) → mergeStatesStrict P sts n = .ok (mergeStates P sts)) := by
+  unfold mergeStatesStrict
+  by_cases h : n ≠ 0 ∧ sts.length ≠ n
+  · simp [h]
+  · simp [h]
+
+/-- **Sharded + merged = brute-force group-by over the WHOLE data** (C03_shards_sliced composed with
+C02_slices).  For a row-level slicer in filter mode (single feature, cross, `within_values`, fan-out
+`slice_fn`) and every partition of the stream into shards: what `get_result(merge_states(shard states))`
+reports for slice `(sl.name, v)` is the aggregate applied once to exactly the rows of the whole stream that
+belong to the slice — wherever the shard boundaries fall, whichever shards have seen the value — and nothing
+if no row of the stream is in the slice. -/
+theorem C03_shards_sliced_groupby {P : Pipeline X S Rv} (hWF : P.WF) {parts : List (List Batch)} (hne : parts ≠ [])
+    {sts : List (State S)} (hruns : mapE (run P) parts = .ok sts)
+    {res res' : Result Rv} (hrun : aggResult P parts.flatten = .ok res)
+    (hres' : getResult P (mergeStates P sts) = .ok res')
+    {a : Agg X S Rv} (ha : a ∈ P.aggs) (hns : a.noSlice = false)
+    {Eqv : S → S → Prop} (hL : Lawful a.m Eqv) (hdec : RowWise a.dec)
+    {sl : Slicer} (hsl : sl ∈ P.slicers) {f : List Val → Except ErrKind (List (List Int))}
+    (hfn : sl.fn = .rows f) (hrep : sl.replace = none) (v : List Int) :
+    ∃ rowss, mapE a.rowsOf parts.flatten = .ok rowss ∧
+      ∀ i (hi : i < a.out.length),
+        AList.get? res' ⟨a.out[i], ⟨sl.name, v⟩⟩ =
+          if ∃ b ∈ parts.flatten, ∃ row ∈ sl.featRows b, inSlice f v row = true then
+            a.outputAt (a.m.ofBatch
+              (((parts.flatten.zip rowss).map fun p => groupRows f v (sl.featRows p.1) p.2).flatten)) i
+          else none := by
+  obtain ⟨st, hst, hres⟩ := aggResult_ok hrun
+  obtain ⟨rowss, hrows, hval⟩ := MlModel.C02.C02_slices hWF hrun ha hns hL hdec hsl hfn hrep v
+  refine ⟨rowss, hrows, fun i hi => ?_⟩
+  rw [C03_shards_sliced hWF hne hruns hst hres hres' ha hL ⟨sl.name, v⟩ hi]
+  exact hval i hi
 
 end Sliced
 
